@@ -15,6 +15,18 @@
     - [quiet]: during the history the key does not expire, is not removed, is not written by another
       application, and no save writes an entity whose exat is already in the past ([ext_future]).
 
+    Values, not cells: an entity of the model is an immutable VALUE (a version and a list of field
+    values); Fetch returns a value, and nothing the caller does with one entity afterwards can reach
+    another.  The Go entities are structs with pointer, slice and struct fields, so this is an
+    assumption about the code — "two decoded entities never share a memory cell with each other, with
+    the reply they were decoded from, or with a process-wide variable" — that no theorem here can
+    state.  Its tie is the observer: obs_om writes through every pointer / slice / nested field of
+    entities Fetch and FetchCache handed out earlier (ops mutate and modsave) and then re-checks every
+    other field of every fetched entity, later fetches, the entity of a second key and the next save
+    (oracle classes fetched-values-share-cells, roundtrip, roundtrip-other-key).  It found that a
+    []byte field shared the bytes of the (cached) reply string; fixed by "om copies []byte fields out
+    of the reply string".
+
     The theorems are about the code as repaired by the fix "om: clear hash fields of nil pointers"
     (suspicion S3 of DESIGN.md, confirmed): before it, nil pointer fields were neither written nor
     cleared, and [C40_unfixed_script_keeps_stale_field] below exhibits the stale field in the model of
